@@ -699,7 +699,8 @@ def p_general(gd, gs, sd, ss):
         X, Y = dst.base.affine * (u, v)
         if src.base.crs != dst.base.crs:
             if tr is None:
-                tr = dst.base.crs.transformer_to_crs(src.base.crs)
+                from pyproj import Transformer       # pyproj called directly, x/y order
+                tr = Transformer.from_crs(gd[2], gs[2], always_xy=True).transform
             X, Y = tr(X, Y)
             if not (np.isfinite(X) and np.isfinite(Y)):
                 continue
@@ -771,6 +772,117 @@ def _chord_class(gd, dst, d, gs, src, s_, frac):
     if not cp.is_valid:
         return True
     return cp.intersection(tp).area < 0.5 * frac * tp.area
+
+
+CUSTOM_CRS = [
+    "+proj=laea +lat_0=52 +lon_0=10 +x_0=4321000 +y_0=3210000 +ellps=GRS80 +units=m +no_defs",
+    "+proj=tmerc +lat_0=0 +lon_0=21.5 +k=0.9999 +x_0=250000 +y_0=0 +ellps=GRS80 +units=m +no_defs",
+    "+proj=aea +lat_0=40 +lon_0=-96 +lat_1=20 +lat_2=60 +x_0=0 +y_0=0 +ellps=GRS80 +units=m +no_defs",
+    "+proj=tmerc +lat_0=-30 +lon_0=135.25 +k=1 +x_0=100000 +y_0=5000000 +ellps=WGS84 +units=m +no_defs",
+    "+proj=lcc +lat_1=30 +lat_2=50 +lat_0=40 +lon_0=100 +x_0=0 +y_0=0 +ellps=WGS84 +units=m +no_defs",
+    "+proj=laea +lat_0=-20 +lon_0=-60 +x_0=0 +y_0=0 +ellps=WGS84 +units=m +no_defs",
+]
+CUSTOM_CENTRE = [(10, 52), (21.5, 45), (-96, 40), (135.25, -30), (100, 40), (-60, -20)]   # lon, lat near each origin
+
+
+_KEEP = {}
+
+
+def keep_crs(spec):
+    """one odc.geo CRS object per query CRS, created once and kept for the life of the process (as a long-running
+    caller holding a CRS object would): histories that evict cache entries must not change what it transforms to"""
+    from odc.geo.crs import CRS
+    if spec not in _KEEP:
+        _KEEP[spec] = CRS(spec)
+    return _KEEP[spec]
+
+
+def p_many_crs(n, salt):
+    """a process that works with more CRSs than any plausible cache bound: n rasters, each in its own custom
+    transverse-Mercator CRS, queried with a lon/lat triangle through one long-lived EPSG:4326 CRS object; every
+    query is judged like xquery (pyproj called directly)"""
+    rng = core.rng(f"c12-many-{n}-{salt}")
+    for i in range(n):
+        lon0 = -170 + ((i * 11 + salt * 7) % 340) + (salt % 5) / 16
+        crs = f"+proj=tmerc +lat_0=0 +lon_0={lon0} +k=0.9996 +x_0=500000 +y_0={salt * 1000 + i} +ellps=WGS84 +units=m +no_defs"
+        CUSTOM_CENTRE_TMP = (lon0 + rng.uniform(-1, 1), rng.uniform(-50, 50))
+        g, spec, qpts, qcrs = gen_xquery(rng, crs, CUSTOM_CENTRE_TMP)
+        ok, detail = p_xquery(g, spec, qpts, qcrs)
+        if not ok:
+            return False, f"CRS number {i} ({crs}), raster {g[:2]} at {g[5]},{g[8]}, query {qpts}: {detail}"
+    return True, f"{n} custom CRSs"
+
+
+def p_xquery(g, spec, qpts, qcrs):
+    """geometry query given in another CRS: the tiles returned are exactly those whose footprint overlaps the query.
+    Reference independent of odc.geo.crs / Geometry.to_crs: query vertices moved with pyproj.Transformer
+    (always_xy=True) called directly, tile footprints from the affine, shapely intersection area / distance
+    (tiles overlapping by less than 1e-3 pixel or closer than 1e-3 pixel are not judged)."""
+    from affine import Affine
+    from pyproj import Transformer
+    from shapely.geometry import Polygon
+    from odc.geo import geom
+    gbt = mk_gbt(g, spec)
+    q = geom.polygon(list(qpts) + [qpts[0]], keep_crs(qcrs))
+    try:
+        got = set(map(tuple, gbt.tiles(q)))
+    except Exception as e:
+        return False, f"raised {type(e).__name__}: {str(e)[:200]}"
+    tr = Transformer.from_crs(qcrs, g[2], always_xy=True).transform
+    P = Polygon([tr(x, y) for x, y in qpts])
+    if not P.is_valid or P.area == 0:
+        return True, "degenerate query after projection (not judged)"
+    A = Affine(*g[3:9])
+    px_area = abs(g[3] * g[7] - g[4] * g[6])
+    px = px_area ** 0.5
+    n = 0
+    for idx in all_idx(gbt):
+        ry, rx = gbt.roi[idx]
+        if ry.stop <= ry.start or rx.stop <= rx.start:
+            continue
+        T = Polygon([A * c for c in [(rx.start, ry.start), (rx.stop, ry.start), (rx.stop, ry.stop), (rx.start, ry.stop)]])
+        a = P.intersection(T).area
+        if a > 1e-3 * px_area:
+            n += 1
+            if idx not in got:
+                return False, (f"tile {idx} overlaps the query by {a / px_area:.3f} pixels (pyproj always_xy + shapely reference) "
+                               f"but is missing from {sorted(got)[:10]}")
+        elif idx in got and P.distance(T) > 1e-3 * px:
+            return False, (f"tile {idx} is {P.distance(T) / px:.3f} pixels away from the query (pyproj always_xy + shapely reference) "
+                           f"but is returned: {sorted(got)[:10]}")
+    return True, f"{n} overlapping tiles, returned {len(got)}"
+
+
+def gen_xquery(rng, grid_crs=None, centre=None):
+    """raster in EPSG:3857 / UTM / a custom CRS around a lon/lat position and a triangle or quadrilateral query given
+    in EPSG:4326 (lon, lat) that covers part of it"""
+    from pyproj import Transformer
+    if grid_crs is None:
+        grid_crs, (lon, lat) = rng.choice([("epsg:3857", (rng.uniform(-120, 120), rng.uniform(-55, 60))),
+                                           ("epsg:32633", (rng.uniform(12.5, 17.5), rng.uniform(10, 70))),
+                                           ("epsg:3577", (rng.uniform(120, 145), rng.uniform(-38, -15)))])
+    elif centre is not None:
+        lon, lat = centre
+    else:
+        lon, lat = CUSTOM_CENTRE[CUSTOM_CRS.index(grid_crs)]
+        lon, lat = lon + rng.uniform(-3, 3), lat + rng.uniform(-3, 3)
+    NY, NX = rng.randint(3, 9), rng.randint(3, 9)
+    px = float(rng.choice([500, 2000, 8000]))
+    fw = Transformer.from_crs("epsg:4326", grid_crs, always_xy=True).transform
+    bw = Transformer.from_crs(grid_crs, "epsg:4326", always_xy=True).transform
+    cx, cy = fw(lon, lat)
+    sxg, syg = rng.choice([(1, -1), (1, -1), (-1, -1), (1, 1)])
+    g = (NY, NX, grid_crs, sxg * px, 0.0, float(round(cx - sxg * px * NX / 2)), 0.0, syg * px, float(round(cy - syg * px * NY / 2)))
+    from affine import Affine
+    A = Affine(*g[3:9])
+    k = rng.choice([3, 4])
+    pix = [(rng.uniform(-1, NX + 1), rng.uniform(-1, NY + 1)) for _ in range(k)]
+    if k == 4:      # keep the quadrilateral simple: order the vertices around their centroid
+        import math
+        mx, my = sum(p[0] for p in pix) / 4, sum(p[1] for p in pix) / 4
+        pix.sort(key=lambda p: math.atan2(p[1] - my, p[0] - mx))
+    qpts = [tuple(round(v, 6) for v in bw(*(A * p))) for p in pix]
+    return g, gen_spec(rng, NY, NX, allow_zero=False), qpts, "epsg:4326"
 
 
 def _point_witness(gd, dst, gs, src, graph):
@@ -866,10 +978,11 @@ def p_crossref(gd, gs, sd, ss):
 
 
 PREDICATES = {"locate": p_locate, "pixquery": p_pixquery, "geomquery": p_geomquery, "linear": p_linear,
-              "general": p_general, "crossref": p_crossref}
+              "general": p_general, "crossref": p_crossref, "xquery": p_xquery, "many_crs": p_many_crs}
 
 
 def search(out, tier):
+    _register_history()
     rng = core.rng("c12-search")
     big = tier != "quick"
     found = {}
@@ -944,6 +1057,64 @@ def search(out, tier):
         gg, gp, sg, sp = gen_pair_curved(rng)
         run("crossref", gg, gp, sg, sp)
         run("crossref", gp, gg, sp, sg)
+    for gi in range(24 if not big else 200):
+        run("xquery", *gen_xquery(rng, CUSTOM_CRS[gi % len(CUSTOM_CRS)] if gi % 4 == 3 else None))
+
+    run("many_crs", 160 if not big else 400, rng.randrange(1000))
+    # ---- process histories of the CRS layer (tools/vlib/crshist.py): the same cross-CRS clauses must hold whatever the
+    #      process asked of odc.geo.crs before.  Evaluated in a fresh interpreter (see tools/vlib/c12c14_hist.py); a
+    #      violation is recorded through the "after_history" predicate, which applies the perturbations first.
+    from vlib import c12c14_hist
+    rows, ok_child, err = c12c14_hist.run_child("c12", tier)
+    out.oblige("search:process-history child ran to completion", "harness", ok_child, err)
+    for r in rows:
+        hist, name, detail = r["hist"], r["name"], r["detail"]
+        out.count("predicate:after_history:" + "+".join(hist) + ":" + name)
+        out.case(("pred", "after_history", hist, name, r["args"]), True)
+        key = CHORD_KEY if (name == "crossref" and detail.startswith("[chord]")) else f"c12:after_history:{name}"
+        if not r["ok"] and key not in found:
+            found[key] = True
+            a = [enc(list(hist)), enc(HIST_SPECS), "str:" + name, r["args"]]
+            out.violation(key, f"after_history[{hist}, {name}, {r['args']}]: {detail}",
+                          {"predicate": "after_history", "args": a, "observed": detail})
+
+
+HIST_SPECS = ["epsg:4326", "epsg:3857", "epsg:32633", "epsg:3577", "epsg:32755", "epsg:3031", "epsg:3413", "epsg:3035"]
+
+
+def history_cases(tier, emit):
+    """runs in a fresh interpreter: perturb the caches of odc.geo.crs, then evaluate cross-CRS clauses"""
+    from vlib import crshist
+    _register_history()
+    rng = core.rng("c12-history")
+    big = tier != "quick"
+
+    def run_after(hist, name, *args):
+        try:
+            ok, detail = PREDICATES[name](*args)
+        except Exception as e:
+            ok, detail = False, f"predicate raised {type(e).__name__}: {e}"
+        emit(hist, name, args, ok, detail)
+
+    hist = ("authority-order-first", "queries-first")
+    crshist.perturb(hist, HIST_SPECS)
+    for gi in range(14 if not big else 80):
+        run_after(hist, "xquery", *gen_xquery(rng))
+    for gi in range(3 if not big else 20):
+        gd, gs, sd, ss = gen_pair_global(rng)
+        run_after(hist, "crossref", gd, gs, sd, ss)
+        run_after(hist, "general", *gen_pair_general(rng, 1, exact_rot=False))
+        gg, gp, sg, sp = gen_pair_curved(rng)
+        run_after(hist, "crossref", gg, gp, sg, sp)
+    # many short-lived custom CRSs, then NEW custom CRSs (a bounded CRS cache must not hand out the transformers
+    # of dead CRS objects whose ids are re-used)
+    hist = hist + ("churn",)
+    crshist.perturb(("churn",), HIST_SPECS)
+    for gi in range(2 if not big else 8):
+        run_after(hist, "many_crs", 40, rng.randrange(1000))      # new custom CRSs built after the churn
+    for gi in range(2 if not big else 12):
+        gd, gs, sd, ss = gen_pair_global(rng)
+        run_after(hist, "crossref", gd, gs, sd, ss)
 
 
 # ---------------------------------------------------------------- entry points
@@ -963,6 +1134,7 @@ def run(out, tier, scratch):
                 "tolerances (1e-3 translation, 1e-6 scale).  non-trivial = successful call with a "
                 "non-default result; distinct = distinct canonical (operation, arguments).  search: brute-force exact references")
     out.assumptions += [
+        "process histories of odc.geo.crs (tools/vlib/crshist.py) evaluated in a fresh interpreter: cross-CRS queries (xquery, crossref, general, many_crs) are judged against pyproj.Transformer(always_xy=True) called directly, never against Geometry.to_crs",
         "exact-rational model of binary64 (linear pairs are generated so that the pixel-to-pixel affine is exact; pairs whose "
         "affine has long mantissas are discarded and counted)",
         "oracles: GeoBox.project / Geometry.to_crs / boundingbox (pixel-space bounding box of a query), shapely disjoint, common "
@@ -994,12 +1166,26 @@ def run(out, tier, scratch):
     search(out, tier)
 
 
+def _register_history():
+    from vlib import crshist
+    PREDICATES.setdefault("after_history", crshist.after_history(PREDICATES))
+    keep_crs("epsg:4326")
+
+
 def replay(rp) -> int:
+    _register_history()
     name = rp["predicate"]
     args = dec(rp["args"])
     ok, detail = PREDICATES[name](*args)
     print(f"replay {name}{rp['args']}: {'holds' if ok else 'FAILS'}: {detail}")
     return 0 if ok else 1
+
+
+if __name__ == "__main__":
+    import sys as _sys
+    if "--history-child" in _sys.argv:
+        from vlib import c12c14_hist as _h
+        _h.child_main(history_cases, enc)
 
 
 META = {
@@ -1031,3 +1217,4 @@ META = {
     "technique": "Coq proof over hand-written Gallina model (Z/Q arithmetic, oracles as parameters) + exact differential correspondence (vm_compute) + brute-force property predicates",
     "design_ref": "DESIGN.md section 5, C12; section 6 F11, F14",
 }
+
